@@ -584,3 +584,296 @@ Proof.
     rewrite (mod_shift _ (- uval w a) (- sval w a) (-1)) by lia. rewrite Z.mod_small; lia.
   - split; [exact Ha|]. lia.
 Qed.
+
+(* ---------- signed add / sub chains ---------- *)
+
+Local Ltac cmp_cases :=
+  repeat match goal with
+  | |- context [?a <? ?b] => destruct (Z.ltb_spec a b)
+  | |- context [?a <=? ?b] => destruct (Z.leb_spec a b)
+  end.
+
+(* flag of the top-digit carrying add: xor of the two partial overflows *)
+Lemma sadd_flag M sx sy (c : bool) : 0 < M -> M = 2 * (M / 2) ->
+  - (M / 2) <= sx < M / 2 -> - (M / 2) <= sy < M / 2 ->
+  (if c then xorb (negb (inS M (sx + sy))) (negb (inS M (wrapS M (sx + sy) + 1)))
+   else negb (inS M (sx + sy))) = negb (inS M (sx + sy + bz c)).
+Proof.
+  intros HM He Hx Hy. destruct c; cbn [bz]; [|f_equal; f_equal; lia].
+  rewrite wrapS_cases by lia. unfold inS. set (h := M / 2) in *.
+  cmp_cases; cbn [andb negb xorb]; try reflexivity; lia.
+Qed.
+
+Lemma ssub_flag M sx sy (c : bool) : 0 < M -> M = 2 * (M / 2) ->
+  - (M / 2) <= sx < M / 2 -> - (M / 2) <= sy < M / 2 ->
+  (if c then xorb (negb (inS M (sx - sy))) (negb (inS M (wrapS M (sx - sy) - 1)))
+   else negb (inS M (sx - sy))) = negb (inS M (sx - sy - bz c)).
+Proof.
+  intros HM He Hx Hy. destruct c; cbn [bz]; [|f_equal; f_equal; lia].
+  rewrite wrapS_cases by lia. unfold inS. set (h := M / 2) in *.
+  cmp_cases; cbn [andb negb xorb]; try reflexivity; lia.
+Qed.
+
+Lemma carrying_add_signed_spec w x y c s o : 0 < w -> digit_ok w x -> digit_ok w y ->
+  carrying_add_signed w (sd w x) (sd w y) c = (s, o) ->
+  ud w s = (x + y + bz c) mod B w /\ o = negb (inS (B w) (sd w x + sd w y + bz c)).
+Proof.
+  intros Hw Hx Hy E. pose proof (B_pos w ltac:(lia)) as HB. destruct (B_even w Hw) as [HBe _].
+  unfold digit_ok in *.
+  assert (Rx : - (B w / 2) <= sd w x < B w / 2) by (apply to_signed_range; lia).
+  assert (Ry : - (B w / 2) <= sd w y < B w / 2) by (apply to_signed_range; lia).
+  assert (Hm : (sd w x + sd w y) mod B w = (x + y) mod B w).
+  { apply mod_add_congr2; apply to_signed_mod; lia. }
+  pose proof (sadd_flag (B w) (sd w x) (sd w y) c HB HBe Rx Ry) as Hf.
+  unfold carrying_add_signed, s_ovf_add in E. unfold ud. destruct c; cbn [bz] in *;
+    inversion E; subst; clear E; (split; [|exact Hf]).
+  - rewrite wrapS_mod by lia. apply mod_add_congr. rewrite wrapS_mod by lia. exact Hm.
+  - rewrite wrapS_mod by lia. rewrite Z.add_0_r. exact Hm.
+Qed.
+
+Lemma borrowing_sub_signed_spec w x y c s o : 0 < w -> digit_ok w x -> digit_ok w y ->
+  borrowing_sub_signed w (sd w x) (sd w y) c = (s, o) ->
+  ud w s = (x - y - bz c) mod B w /\ o = negb (inS (B w) (sd w x - sd w y - bz c)).
+Proof.
+  intros Hw Hx Hy E. pose proof (B_pos w ltac:(lia)) as HB. destruct (B_even w Hw) as [HBe _].
+  unfold digit_ok in *.
+  assert (Rx : - (B w / 2) <= sd w x < B w / 2) by (apply to_signed_range; lia).
+  assert (Ry : - (B w / 2) <= sd w y < B w / 2) by (apply to_signed_range; lia).
+  assert (Hm : (sd w x - sd w y) mod B w = (x - y) mod B w).
+  { apply mod_sub_congr; apply to_signed_mod; lia. }
+  pose proof (ssub_flag (B w) (sd w x) (sd w y) c HB HBe Rx Ry) as Hf.
+  unfold borrowing_sub_signed, s_ovf_sub in E. unfold ud. destruct c; cbn [bz] in *;
+    inversion E; subst; clear E; (split; [|exact Hf]).
+  - rewrite wrapS_mod by lia. apply (mod_sub_congr _ _ _ 1 1); [|reflexivity].
+    rewrite wrapS_mod by lia. exact Hm.
+  - rewrite wrapS_mod by lia. rewrite Z.sub_0_r. exact Hm.
+Qed.
+
+Lemma iadd_loop_cons2 w x x' a y y' b c :
+  iadd_loop w (x :: x' :: a) (y :: y' :: b) c =
+  let '(s, c1) := carrying_add w x y c in
+  let '(r, o) := iadd_loop w (x' :: a) (y' :: b) c1 in (s :: r, o).
+Proof. reflexivity. Qed.
+
+Lemma isub_loop_cons2 w x x' a y y' b c :
+  isub_loop w (x :: x' :: a) (y :: y' :: b) c =
+  let '(s, c1) := borrowing_sub w x y c in
+  let '(r, o) := isub_loop w (x' :: a) (y' :: b) c1 in (s :: r, o).
+Proof. reflexivity. Qed.
+
+Lemma iadd_loop_spec w n a b c r o : 0 < w -> (0 < n)%nat -> wf w n a -> wf w n b ->
+  iadd_loop w a b c = (r, o) ->
+  wf w n r /\ uval w r = (uval w a + uval w b + bz c) mod Mod w n /\
+  o = negb (inS (Mod w n) (sval w a + sval w b + bz c)).
+Proof.
+  intros Hw Hn. destruct n as [|n]; [lia|]. clear Hn. revert a b c r o.
+  pose proof (B_pos w ltac:(lia)) as HB.
+  induction n as [|n IH]; intros a b c r o Ha Hb E.
+  - destruct (wf_inv_S _ _ _ Ha) as (x & a' & -> & Hx & Ha'). apply wf_inv_0 in Ha'; subst.
+    destruct (wf_inv_S _ _ _ Hb) as (y & b' & -> & Hy & Hb'). apply wf_inv_0 in Hb'; subst.
+    cbn [iadd_loop] in E.
+    destruct (carrying_add_signed w (sd w x) (sd w y) c) as [s o'] eqn:E1.
+    inversion E; subst; clear E.
+    destruct (carrying_add_signed_spec _ _ _ _ _ _ Hw Hx Hy E1) as [Hs Ho].
+    rewrite !sval_single by lia. rewrite Mod_1 by lia. cbn [uval].
+    rewrite !Z.mul_0_r, !Z.add_0_r. rewrite Hs.
+    split; [|split; [reflexivity | exact Ho]].
+    apply wf_cons. split; [|apply wf_nil]. rewrite <- Hs. apply Z.mod_pos_bound; lia.
+  - destruct (wf_inv_S _ _ _ Ha) as (x & a' & -> & Hx & Ha').
+    destruct (wf_inv_S _ _ _ Hb) as (y & b' & -> & Hy & Hb').
+    destruct (wf_inv_S _ _ _ Ha') as (x' & a'' & -> & Hx' & Ha'').
+    destruct (wf_inv_S _ _ _ Hb') as (y' & b'' & -> & Hy' & Hb'').
+    rewrite iadd_loop_cons2 in E.
+    destruct (carrying_add w x y c) as [s c1] eqn:E1.
+    destruct (iadd_loop w (x' :: a'') (y' :: b'') c1) as [r' o'] eqn:E2.
+    inversion E; subst; clear E.
+    destruct (carrying_add_spec w x y c s c1 ltac:(lia) Hx Hy E1) as [Hs Hv1].
+    destruct (IH _ _ _ _ _ Ha' Hb' E2) as (Hr & Hv2 & Ho).
+    set (A' := x' :: a'') in *. set (B' := y' :: b'') in *.
+    pose proof (Mod_pos w (S n) ltac:(lia)) as HM. pose proof (Mod_even w (S n) Hw ltac:(lia)) as HMe.
+    unfold digit_ok in Hs.
+    split; [apply wf_cons; auto|]. split.
+    + cbn [uval]. rewrite Hv2, (Mod_S w (S n)) by lia. rewrite <- mod_cons by lia. f_equal. lia.
+    + rewrite (sval_cons w (S n) x A'), (sval_cons w (S n) y B') by (auto; lia).
+      rewrite (Mod_S w (S n)) by lia. rewrite Ho.
+      rewrite <- (inS_cons (B w) (Mod w (S n)) s) by lia. f_equal. f_equal. lia.
+Qed.
+
+Lemma isub_loop_spec w n a b c r o : 0 < w -> (0 < n)%nat -> wf w n a -> wf w n b ->
+  isub_loop w a b c = (r, o) ->
+  wf w n r /\ uval w r = (uval w a - uval w b - bz c) mod Mod w n /\
+  o = negb (inS (Mod w n) (sval w a - sval w b - bz c)).
+Proof.
+  intros Hw Hn. destruct n as [|n]; [lia|]. clear Hn. revert a b c r o.
+  pose proof (B_pos w ltac:(lia)) as HB.
+  induction n as [|n IH]; intros a b c r o Ha Hb E.
+  - destruct (wf_inv_S _ _ _ Ha) as (x & a' & -> & Hx & Ha'). apply wf_inv_0 in Ha'; subst.
+    destruct (wf_inv_S _ _ _ Hb) as (y & b' & -> & Hy & Hb'). apply wf_inv_0 in Hb'; subst.
+    cbn [isub_loop] in E.
+    destruct (borrowing_sub_signed w (sd w x) (sd w y) c) as [s o'] eqn:E1.
+    inversion E; subst; clear E.
+    destruct (borrowing_sub_signed_spec _ _ _ _ _ _ Hw Hx Hy E1) as [Hs Ho].
+    rewrite !sval_single by lia. rewrite Mod_1 by lia. cbn [uval].
+    rewrite !Z.mul_0_r, !Z.add_0_r. rewrite Hs.
+    split; [|split; [reflexivity | exact Ho]].
+    apply wf_cons. split; [|apply wf_nil]. rewrite <- Hs. apply Z.mod_pos_bound; lia.
+  - destruct (wf_inv_S _ _ _ Ha) as (x & a' & -> & Hx & Ha').
+    destruct (wf_inv_S _ _ _ Hb) as (y & b' & -> & Hy & Hb').
+    destruct (wf_inv_S _ _ _ Ha') as (x' & a'' & -> & Hx' & Ha'').
+    destruct (wf_inv_S _ _ _ Hb') as (y' & b'' & -> & Hy' & Hb'').
+    rewrite isub_loop_cons2 in E.
+    destruct (borrowing_sub w x y c) as [s c1] eqn:E1.
+    destruct (isub_loop w (x' :: a'') (y' :: b'') c1) as [r' o'] eqn:E2.
+    inversion E; subst; clear E.
+    destruct (borrowing_sub_spec w x y c s c1 ltac:(lia) Hx Hy E1) as [Hs Hv1].
+    destruct (IH _ _ _ _ _ Ha' Hb' E2) as (Hr & Hv2 & Ho).
+    set (A' := x' :: a'') in *. set (B' := y' :: b'') in *.
+    pose proof (Mod_pos w (S n) ltac:(lia)) as HM. pose proof (Mod_even w (S n) Hw ltac:(lia)) as HMe.
+    unfold digit_ok in Hs.
+    split; [apply wf_cons; auto|]. split.
+    + cbn [uval]. rewrite Hv2, (Mod_S w (S n)) by lia. rewrite <- mod_cons by lia. f_equal. lia.
+    + rewrite (sval_cons w (S n) x A'), (sval_cons w (S n) y B') by (auto; lia).
+      rewrite (Mod_S w (S n)) by lia. rewrite Ho.
+      rewrite <- (inS_cons (B w) (Mod w (S n)) s) by lia. f_equal. f_equal. lia.
+Qed.
+
+(* ---------- signed add / sub projections ---------- *)
+
+Lemma I_overflowing_add_spec w n a b : 0 < w -> (0 < n)%nat -> wf w n a -> wf w n b ->
+  wf w n (fst (I_overflowing_add w a b)) /\
+  uval w (fst (I_overflowing_add w a b)) = (uval w a + uval w b) mod Mod w n /\
+  sval w (fst (I_overflowing_add w a b)) = wrapS (Mod w n) (sval w a + sval w b) /\
+  snd (I_overflowing_add w a b) = negb (inS (Mod w n) (sval w a + sval w b)).
+Proof.
+  intros Hw Hn Ha Hb. unfold I_overflowing_add.
+  destruct (iadd_loop w a b false) as [r o] eqn:E.
+  destruct (iadd_loop_spec w n a b false r o Hw Hn Ha Hb E) as (H1 & H2 & H3).
+  cbn [bz fst snd] in *. rewrite Z.add_0_r in H2, H3. pose proof (Mod_pos w n ltac:(lia)).
+  repeat (split; [assumption|]). split; [|exact H3].
+  apply (sval_of_uval_mod w n); auto. rewrite H2, Z.mod_mod by lia.
+  apply mod_add_congr2; symmetry; apply sval_mod; auto.
+Qed.
+
+Lemma I_overflowing_sub_spec w n a b : 0 < w -> (0 < n)%nat -> wf w n a -> wf w n b ->
+  wf w n (fst (I_overflowing_sub w a b)) /\
+  uval w (fst (I_overflowing_sub w a b)) = (uval w a - uval w b) mod Mod w n /\
+  sval w (fst (I_overflowing_sub w a b)) = wrapS (Mod w n) (sval w a - sval w b) /\
+  snd (I_overflowing_sub w a b) = negb (inS (Mod w n) (sval w a - sval w b)).
+Proof.
+  intros Hw Hn Ha Hb. unfold I_overflowing_sub.
+  destruct (isub_loop w a b false) as [r o] eqn:E.
+  destruct (isub_loop_spec w n a b false r o Hw Hn Ha Hb E) as (H1 & H2 & H3).
+  cbn [bz fst snd] in *. rewrite Z.sub_0_r in H2, H3. pose proof (Mod_pos w n ltac:(lia)).
+  repeat (split; [assumption|]). split; [|exact H3].
+  apply (sval_of_uval_mod w n); auto. rewrite H2, Z.mod_mod by lia.
+  apply mod_sub_congr; symmetry; apply sval_mod; auto.
+Qed.
+
+(* BInt::wrapping_add / wrapping_sub run the unsigned loops on the bit pattern *)
+Lemma I_wrapping_add_spec w n a b : 0 < w -> (0 < n)%nat -> wf w n a -> wf w n b ->
+  wf w n (I_wrapping_add w a b) /\
+  uval w (I_wrapping_add w a b) = (uval w a + uval w b) mod Mod w n /\
+  sval w (I_wrapping_add w a b) = wrapS (Mod w n) (sval w a + sval w b).
+Proof.
+  intros Hw Hn Ha Hb. unfold I_wrapping_add.
+  destruct (U_wrapping_add_spec w n a b ltac:(lia) Ha Hb) as [H1 H2].
+  pose proof (Mod_pos w n ltac:(lia)).
+  split; [exact H1|]. split; [exact H2|].
+  apply (sval_of_uval_mod w n); auto. rewrite H2, Z.mod_mod by lia.
+  apply mod_add_congr2; symmetry; apply sval_mod; auto.
+Qed.
+
+Lemma I_wrapping_sub_spec w n a b : 0 < w -> (0 < n)%nat -> wf w n a -> wf w n b ->
+  wf w n (I_wrapping_sub w a b) /\
+  uval w (I_wrapping_sub w a b) = (uval w a - uval w b) mod Mod w n /\
+  sval w (I_wrapping_sub w a b) = wrapS (Mod w n) (sval w a - sval w b).
+Proof.
+  intros Hw Hn Ha Hb. unfold I_wrapping_sub.
+  destruct (U_wrapping_sub_spec w n a b ltac:(lia) Ha Hb) as [H1 H2].
+  pose proof (Mod_pos w n ltac:(lia)).
+  split; [exact H1|]. split; [exact H2|].
+  apply (sval_of_uval_mod w n); auto. rewrite H2, Z.mod_mod by lia.
+  apply mod_sub_congr; symmetry; apply sval_mod; auto.
+Qed.
+
+Lemma I_checked_add_spec w n a b : 0 < w -> (0 < n)%nat -> wf w n a -> wf w n b ->
+  (inS (Mod w n) (sval w a + sval w b) = true ->
+     exists r, I_checked_add w a b = Some r /\ wf w n r /\ sval w r = sval w a + sval w b) /\
+  (inS (Mod w n) (sval w a + sval w b) = false -> I_checked_add w a b = None).
+Proof.
+  intros Hw Hn Ha Hb. destruct (I_overflowing_add_spec w n a b Hw Hn Ha Hb) as (H1 & _ & H3 & H4).
+  pose proof (Mod_pos w n ltac:(lia)). pose proof (Mod_even w n Hw Hn).
+  unfold I_checked_add, tuple_to_option. rewrite H4. split; intros Hc; rewrite Hc; cbn [negb].
+  - eexists; split; [reflexivity|]. split; [exact H1|]. rewrite H3.
+    apply wrapS_id; auto. apply inS_true; exact Hc.
+  - reflexivity.
+Qed.
+
+Lemma I_checked_sub_spec w n a b : 0 < w -> (0 < n)%nat -> wf w n a -> wf w n b ->
+  (inS (Mod w n) (sval w a - sval w b) = true ->
+     exists r, I_checked_sub w a b = Some r /\ wf w n r /\ sval w r = sval w a - sval w b) /\
+  (inS (Mod w n) (sval w a - sval w b) = false -> I_checked_sub w a b = None).
+Proof.
+  intros Hw Hn Ha Hb. destruct (I_overflowing_sub_spec w n a b Hw Hn Ha Hb) as (H1 & _ & H3 & H4).
+  pose proof (Mod_pos w n ltac:(lia)). pose proof (Mod_even w n Hw Hn).
+  unfold I_checked_sub, tuple_to_option. rewrite H4. split; intros Hc; rewrite Hc; cbn [negb].
+  - eexists; split; [reflexivity|]. split; [exact H1|]. rewrite H3.
+    apply wrapS_id; auto. apply inS_true; exact Hc.
+  - reflexivity.
+Qed.
+
+(* inherent add / sub: exact in range in both build modes; out of range: panic with debug
+   assertions, two's complement wrap without *)
+Lemma I_add_spec dbg w n a b : 0 < w -> (0 < n)%nat -> wf w n a -> wf w n b ->
+  (inS (Mod w n) (sval w a + sval w b) = true ->
+     SRet w n (I_add dbg w a b) (sval w a + sval w b)) /\
+  (inS (Mod w n) (sval w a + sval w b) = false ->
+     if dbg then I_add dbg w a b = Panic
+     else SRet w n (I_add dbg w a b) (wrapS (Mod w n) (sval w a + sval w b))).
+Proof.
+  intros Hw Hn Ha Hb. destruct (I_checked_add_spec w n a b Hw Hn Ha Hb) as [Hin Hout].
+  destruct (I_wrapping_add_spec w n a b Hw Hn Ha Hb) as (W1 & _ & W3).
+  pose proof (Mod_pos w n ltac:(lia)). pose proof (Mod_even w n Hw Hn).
+  unfold SRet, I_add, I_strict_add. split; intros Hc.
+  - destruct dbg.
+    + destruct (Hin Hc) as (r & -> & Hr & Hv). exists r. cbn [option_expect]. auto.
+    + eexists; split; [reflexivity|]. split; [exact W1|]. rewrite W3.
+      apply wrapS_id; auto. apply inS_true; exact Hc.
+  - destruct dbg.
+    + rewrite (Hout Hc). reflexivity.
+    + eexists; split; [reflexivity|]. split; assumption.
+Qed.
+
+Lemma I_sub_spec dbg w n a b : 0 < w -> (0 < n)%nat -> wf w n a -> wf w n b ->
+  (inS (Mod w n) (sval w a - sval w b) = true ->
+     SRet w n (I_sub dbg w a b) (sval w a - sval w b)) /\
+  (inS (Mod w n) (sval w a - sval w b) = false ->
+     if dbg then I_sub dbg w a b = Panic
+     else SRet w n (I_sub dbg w a b) (wrapS (Mod w n) (sval w a - sval w b))).
+Proof.
+  intros Hw Hn Ha Hb. destruct (I_checked_sub_spec w n a b Hw Hn Ha Hb) as [Hin Hout].
+  destruct (I_wrapping_sub_spec w n a b Hw Hn Ha Hb) as (W1 & _ & W3).
+  pose proof (Mod_pos w n ltac:(lia)). pose proof (Mod_even w n Hw Hn).
+  unfold SRet, I_sub, I_strict_sub. split; intros Hc.
+  - destruct dbg.
+    + destruct (Hin Hc) as (r & -> & Hr & Hv). exists r. cbn [option_expect]. auto.
+    + eexists; split; [reflexivity|]. split; [exact W1|]. rewrite W3.
+      apply wrapS_id; auto. apply inS_true; exact Hc.
+  - destruct dbg.
+    + rewrite (Hout Hc). reflexivity.
+    + eexists; split; [reflexivity|]. split; assumption.
+Qed.
+
+(* range form of the in-range cases, convenient for callers *)
+Lemma I_add_ok dbg w n a b : 0 < w -> (0 < n)%nat -> wf w n a -> wf w n b ->
+  - (Mod w n / 2) <= sval w a + sval w b < Mod w n / 2 ->
+  SRet w n (I_add dbg w a b) (sval w a + sval w b).
+Proof. intros Hw Hn Ha Hb Hr. apply I_add_spec; auto. apply inS_true. exact Hr. Qed.
+
+Lemma I_sub_ok dbg w n a b : 0 < w -> (0 < n)%nat -> wf w n a -> wf w n b ->
+  - (Mod w n / 2) <= sval w a - sval w b < Mod w n / 2 ->
+  SRet w n (I_sub dbg w a b) (sval w a - sval w b).
+Proof. intros Hw Hn Ha Hb Hr. apply I_sub_spec; auto. apply inS_true. exact Hr. Qed.
+
+Lemma inS_false M x : inS M x = false <-> ~ (- (M / 2) <= x < M / 2).
+Proof. rewrite <- inS_true. destruct (inS M x); split; intros; congruence. Qed.
